@@ -222,8 +222,10 @@ fn validate_type(env: &TypeEnv, seen: &mut BTreeMap<String, bool>, t: &Type) -> 
         TypeInner::Func(func) => validate_func(env, seen, func),
         TypeInner::Service(methods) => {
             for (_, ty) in methods.iter() {
-                let func = env.as_func(ty)?;
-                validate_func(env, seen, func)?;
+                env.as_func(ty)?;
+                // through `validate_type`, so that a method given by name is marked as seen: validating
+                // its function body directly recursed forever on `type F = func (service { m : F }) -> ()`
+                validate_type(env, seen, ty)?;
             }
             Ok(())
         }
